@@ -375,6 +375,7 @@ func execC10Hostile(p *drv.Plan) *Out {
 	select {
 	case pv = <-done:
 	case <-time.After(20 * time.Second):
+		out.Tainted = true // the importer goroutine is still busy: no further run in this process
 		pv = &drv.Violation{Prop: "C10", Oracle: "C10.importer-total", Symptom: "hang", Class: p.Mode, Detail: "Add/Commit did not return within 20 s"}
 	}
 	out.Stats["hostile_streams"] = 1
